@@ -261,6 +261,32 @@ func runC12(c *eng.Ctx) {
 		}
 	})
 
+	// ---- 2d. a leaf may answer before the last request has gone out: the task is registered before anything is sent ----------------------
+	c.Rule("ORDER", "query.exec{task registered before the plan is executed}", func() {
+		f := c.Fn("query.exec")
+		orderInFn(c, f, invokeOn(".TaskMgr", "AddTask"), invokeOn("", "Execute"), "TaskMgr.AddTask", "pipeline.Execute")
+	})
+	// ---- 2e. the query's field list is shared by all shards of a request and indexes the per-field aggregators ---------------------------
+	c.Rule("PROV", "tsdb/memdb.memoryDatabase.filter{sorts its own copy of the field list}", func() {
+		f := c.Fn("tsdb/memdb.memoryDatabase.filter")
+		for i, s := range c.Some(f, eng.CallTo("sort.Sort", "sort.Stable", "sort.Slice", "sort.SliceStable", "slices.SortFunc"), "sort.Sort(fields)") {
+			a := eng.CallArgs(s.Instr.(ssa.CallInstruction))[0]
+			own := eng.DependsOn(a, func(x ssa.Value) bool {
+				switch y := x.(type) {
+				case *ssa.Call:
+					g := y.Common().StaticCallee()
+					return g != nil && baseName(g.Name()) == "Clone"
+				case *ssa.MakeSlice:
+					return true
+				}
+				return false
+			})
+			c.Check(own, fmt.Sprintf("sorts-a-copy[%d]", i), s.Instr, f,
+				"the list sorted by name is a copy: StorageExecuteCtx.Fields is shared by every shard of the request and its order (by field id) is the index space of the aggregators and of the file reader",
+				"sorts "+p.Desc(a))
+		}
+	})
+
 	// ---- 3. completion --------------------------------------------------------------------------------------------------------------
 	c.Rule("GUARD", btcT+".tryClose", func() {
 		isClose := func(p *eng.Prog, in ssa.Instruction) bool {
